@@ -1,7 +1,8 @@
 //! Probe actor: every handler writes ALL of its arguments into the new state and emits commands
 //! that carry them (one Send, one SetTimer / CancelTimer, one ChooseRandom); the `mode` selects
 //! whether a handler changes the state and/or emits commands (see `P`). Generic wrappers cannot inspect the wrapped
-//! actor (parametricity, assumption A-PARAM), so transparency on this probe generalises.
+//! actor; since unit ADP proves transparency generically over the wrapped actor, the harnesses on this probe are
+//! independent cross-checks on the real `choice` crate (the parametricity argument A-PARAM is no longer relied upon).
 use stateright::actor::*;
 use std::borrow::Cow;
 use std::fmt::Debug;
